@@ -3,6 +3,7 @@
 # See the NOTICE for more information.
 
 from functools import partial
+import errno
 import sys
 
 try:
@@ -87,6 +88,12 @@ def _eventlet_serve(sock, handle, concurrency):
             sock.close()
             pool.waitall()
             return
+        except OSError as e:
+            # a connection reset while it waited in the accept queue must
+            # not end the acceptor (the other workers ignore these too)
+            if e.errno not in (errno.EAGAIN, errno.ECONNABORTED,
+                               errno.EWOULDBLOCK):
+                raise
 
 
 def _eventlet_stop(client, server, conn):
